@@ -62,6 +62,19 @@ func (c *chunkReader) Read(p []byte) (int, error) {
 	return n, nil
 }
 
+// stingy accepts room bytes and then fails
+type stingy struct{ room int }
+
+func (s *stingy) Write(p []byte) (int, error) {
+	if len(p) <= s.room {
+		s.room -= len(p)
+		return len(p), nil
+	}
+	n := s.room
+	s.room = 0
+	return n, io.ErrShortWrite
+}
+
 type eagerEOF struct{ b []byte }
 
 func (e eagerEOF) ReadAt(p []byte, off int64) (int, error) {
@@ -220,6 +233,13 @@ func run(c Case, rec *h.Rec) {
 		}
 	}
 	// write / read round trip
+	// an earlier WriteTo to a destination that fails part-way leaves no trace
+	for _, room := range []int{0, 1, 7} {
+		if err := fai.WriteTo(&stingy{room: room}, idx); err == nil && room < 7 {
+			rec.Failf("WriteTo to a destination that accepts %d bytes returned nil", room)
+			return
+		}
+	}
 	var w bytes.Buffer
 	if err := fai.WriteTo(&w, idx); err != nil {
 		rec.Failf("WriteTo: %v", err)
